@@ -41,6 +41,7 @@ TECHNIQUE = {
  "C28": "classification of element moves in key/value slice routines by index provenance (len-derived vs forward) + who-may-shorten rule over all stores to Args storage",
  "C29": "as C28 for header storage + sibling agreement of special-name tables + CopyTo field coverage (must-write and copied-from-same-field analyses)",
  "C30": "constant evaluation (big-integer side conditions) + path-sensitive guard exploration on SSA",
+ "C33": "typestate of connection ends and data buffers by path-sensitive exploration with select-case events (success exactly on hand-over paths, disposal otherwise), control-dependence of close() on not-yet-closed tests plus lockset, zone-decided exhaustion guard before fetching the next buffer, dominance of a post-wait non-blocking look over end-of-stream returns",
  "C32": "exhaustive constant evaluation of the table constants and of the consumers' comparisons against reference predicates",
 }
 NOTES = {
@@ -56,7 +57,6 @@ NOT_APPLICABLE = {
  "C26": "equality of a string transformer with RFC 3986 remove_dot_segments over all byte strings: value semantics, no structural necessary condition short of re-implementing the algorithm as a shape match",
  "C27": "parse/serialise round trip and agreement with net/url over all URI strings: value semantics, no static oracle",
  "C31": "agreement of hand-written date/IP parsers with the standard library over all strings: value semantics",
- "C33": "byte-stream equality and Dial/Accept pairing under all interleavings: schedules and data, outside static reach",
  "C36": "differential behaviour against net/http's server over handler programs: no static oracle",
 }
 
